@@ -512,8 +512,9 @@ class C09(Prop):
         "The VALUE is compared with the model for a Python float argument only (the harness wraps the result in float()); the RETURN "
         "TYPE is observed by the oracle only (/repo commit 007797f): compute_beta(float), (np.float64), (np.array([p])), ([p]) and "
         "(pd.Series([p])) must all return a scalar (np.ndim == 0) with the same value bit for bit (failure class "
-        "compute-beta-array-return).  Array-likes with more than one element are outside the property (the code evaluates their "
-        "first element only) and are not generated",
+        "compute-beta-array-return).  Array-likes with more than one element, or with none, are outside the property: since /repo "
+        "commit 125ac37 the code refuses them with ValueError (before it, the beta of the FIRST element was returned silently, class "
+        "compute-beta-first-element, a label of the record only); they are not generated, so 125ac37 itself is not exercised by the check",
         "C09: of constants.py only the keys C09 reads are tied to the model and the guideline here (E, a_M, b_M, d_1, d_2, "
         "a/b_PZ/PD_RAM, d_RAJ, a/b_PZ/PD_RAJ): correspondence, Bridge.constants_eq_c09, C09.constants_eq_guideline, oracle and the "
         "published material-curve literals of the corpus; the rest of the table (k_st, a_RP, f_25..., read by the assessment) is "
